@@ -8,4 +8,6 @@ CONSTANTS
 INVARIANT LawAccept
 INVARIANT LawPairs
 INVARIANT LawModes
+INVARIANT LawTables
+INVARIANT LawExport
 CHECK_DEADLOCK FALSE
